@@ -14,7 +14,9 @@ from gnpy.tools.json_io import Transceiver as TrxLib
 t0 = time.time()
 wit = []
 cases = 0
-tables = [[(4e3, 0), (18e3, 0.5), (40e3, 2.0)], [(40e3, 2.0), (4e3, 0), (18e3, 0.5)], [(10e3, 0.3)], [(-10e3, 1.0), (0, 0), (10e3, 1.0)]]
+tables = [[(4e3, 0), (18e3, 0.5), (40e3, 2.0)], [(40e3, 2.0), (4e3, 0), (18e3, 0.5)], [(10e3, 0.3)], [(-10e3, 1.0), (0, 0), (10e3, 1.0)],
+          # tables reaching below zero without an entry at zero: nothing is added, the user's table is interpolated as written
+          [(-4e3, 2.0), (4e3, 0), (40e3, 0.5)], [(-1e3, 0), (4e3, 0), (18e3, 0.5), (40e3, 2.0)], [(-5e3, 1.0)]]
 for tb in tables:
     mode = {'format': 'm', 'baud_rate': 32e9, 'OSNR': 11, 'bit_rate': 100e9, 'roll_off': 0.15, 'tx_osnr': 40, 'min_spacing': 37.5e9,
             'cost': 1, 'penalties': [{'chromatic_dispersion': x, 'penalty_value': y} for x, y in tb]}
@@ -24,7 +26,12 @@ for tb in tables:
     srt = sorted(tb)
     want = ([(0, 0)] if all(x > 0 for x, _ in tb) else []) + srt
     cases += 1
-    if list(zip(xs, ys)) != want:
+    # judged as a function: same range of impairments covered, same interpolated penalty at every knot and between the knots
+    # (a table stored with additional points on the same segments is the same table)
+    wx, wy = zip(*want)
+    probes = sorted(set(wx) | {(p + q) / 2 for p, q in zip(wx, wx[1:])} | set(xs))
+    if list(xs) != sorted(xs) or xs[0] != wx[0] or xs[-1] != wx[-1] or \
+            any(abs(float(np.interp(c, xs, ys)) - float(np.interp(c, wx, wy))) > 1e-12 for c in probes):
         wit.append({'key': f'normalise:{tb}', 'got': list(zip(xs, ys)), 'want': want})
         continue
     rx = Transceiver(uid='rx')
@@ -128,5 +135,5 @@ for label, table in (('no table', None), ('inside, small', [(0, 0), (4 * cd0, 1.
 finish('penalty tables, out-of-table blocking, no accumulation of added OSNR; fixed-mode verdict of the planner with penalty tables', 'bounded',
        'gnpy.tools.json_io.Transceiver.__init__, gnpy.core.elements.Transceiver.calc_penalties/_calc_penalty/update_snr, '
        'gnpy.topology.request.propagate / compute_path_with_disjunction (fixed mode)',
-       '4 penalty tables x 6 impairment values; 27 contribution tuples x 1/2/5 repeated calls; 4 tables x 3 thresholds x uni/bidirectional '
+       '7 penalty tables x 6 impairment values; 27 contribution tuples x 1/2/5 repeated calls; 4 tables x 3 thresholds x uni/bidirectional '
        'fixed-mode requests on an 80 km line', cases, wit, t0=t0)
